@@ -6,10 +6,10 @@
 // Case: {"tree":T, "exp":E, "xdl":bool, "sweep":bool, "hz":[...]}
 //   T: z | b:0/1 | i:[neg,hi,lo] | d:[4 limbs] | f:[2 limbs] | s:[bytes] | a:[T..] | o:[[keybytes,T]..]
 //      | none:0 (NONE-typed Var) | nan:64/32 | inf:0/1 (negative), w:64/32
-// Writer case (spec/XdlWriterEnum.tla): {"tree":T, "mode":m, "text":[bytes], "lay":bool, "exp":E, "approx":bool, "xdl":bool}
-//   text = Ser(tree, mode) of spec/XdlWriter.tla: Xdl::encode(v, mode) - and Json::encode(v, mode without the JSON bit)
-//   when that bit is set - and the files written by Xdl::write / Json::write must consist of exactly these bytes (lay),
-//   and decoding the library's own text must give exp.
+// Writer case (spec/XdlWriterEnum.tla): {"tree":T, "ti":index, "mode":m, "text":[bytes], "exp":E, "approx":bool, "xdl":bool}
+//   text = Ser(tree, mode) of spec/XdlWriter.tla.  The real texts - Xdl::encode(v, mode), Json::encode(v, mode without the
+//   JSON bit) when that bit is set, and the files written by Xdl::write / Json::write - are decoded by the real decoder
+//   (must give exp) and compared with Ser: other bytes are a layout *deviation* (logged for TLC to judge), not a failure.
 // File case (spec/XdlFile.tla): {"pre":[bytes], "body":[bytes], "padto":n, "k":"doc"|"any", "v":E}: a file with these contents
 //   (byte-order marks, CR LF, short files, text after the value ...): Json::read = Xdl::read = Json::decode(contents without
 //   the mark), and for k = doc the value is the recognizer's.
@@ -17,7 +17,9 @@
 #include "vrun.h"
 #include <asl/File.h>
 #include <unistd.h>
+#include <fcntl.h>
 #include <math.h>
+#include <vector>
 
 using vrun::Outcome;
 using namespace asl;
@@ -132,50 +134,82 @@ static std::string showText(const std::string& t)
 	return vj::quote(t.substr(0, 400)) + (t.size() > 400 ? "..." : "");
 }
 
-// writer cases: the library's text against the specification's serializer, byte for byte
+// Layout deviations.  The exact layout of the writer (rows of 16 items, TAB, ", ", final newline ...) is the present
+// implementation, not part of C05: a real text that is not byte for byte Ser(tree, mode) is appended to the file named by
+// C05_DEVLOG as one ndjson line  {"e":"wdev","ti":tree index,"mode":m,"xdl":0/1,"via":..,"text":[bytes]}  and judged by
+// TLC on the text itself (spec/Trace_XdlWriterDev.tla: recognizer / parser design accept it with the tree's value, digits
+// law of the mode, documented flag promises).  It is not a failure here.
+static void deviation(const vj::Value& c, const char* via, const std::string& text)
+{
+	const char* path = getenv("C05_DEVLOG");
+	if (!path || !*path) return;
+	std::string line = "{\"e\":\"wdev\",\"ti\":" + std::to_string(c["ti"].i()) + ",\"mode\":" + std::to_string(c["mode"].i()) + ",\"xdl\":" +
+	                   (c["xdl"].b ? "true" : "false") + ",\"via\":\"" + via + "\",\"text\":" + vj::codes(text) + "}\n";
+	int fd = open(path, O_WRONLY | O_APPEND | O_CREAT, 0644);
+	if (fd < 0) return;
+	ssize_t w = write(fd, line.data(), line.size()); // one write() on an O_APPEND descriptor: lines of parallel shards do not interleave
+	(void)w;
+	close(fd);
+}
+
+// writer cases: what the real encoder writes for (tree, mode) - through Xdl::encode, Json::encode and both write() functions -
+// is decoded by the real decoder (value = exp) and compared with the specification's serializer; other bytes than Ser's
+// are a deviation for TLC to judge, not a failure
 static Outcome runWriterCase(const vj::Value& c)
 {
 	Outcome res;
 	const vj::Value& tree = c["tree"];
 	const vj::Value& exp = c["exp"];
 	int mode = c["mode"].i();
-	bool json = (mode & Json::JSON) != 0, lay = c["lay"].b, approx = c["approx"].b, xdl = c["xdl"].b;
+	bool json = (mode & Json::JSON) != 0, approx = c["approx"].b, xdl = c["xdl"].b;
 	std::string want = c["text"].bytes();
 	Var v = build(tree);
 	res.nontrivial = tree.has("a") || tree.has("o");
-	char lab[96];
-	snprintf(lab, sizeof lab, "Xdl::encode(v, %d)", mode);
-	String text = Xdl::encode(v, mode);
-	std::string got(*text, (size_t)text.length());
-	if (lay && got != want)
-		return Outcome::fail(std::string(lab) + " wrote " + showText(got) + " , the specification's serializer gives " + showText(want));
-	if (json)
-	{
-		String t2 = Json::encode(v, Json::Mode(mode & ~Json::JSON));
-		if (std::string(*t2, (size_t)t2.length()) != got)
-			return Outcome::fail("Json::encode(v, " + std::to_string(mode & ~Json::JSON) + ") differs from " + lab + ": " + showText(*t2) + " vs " + showText(got));
-	}
-	// the same bytes through a file
 	char name[300];
 	snprintf(name, sizeof name, "%s/c05w-%d.tmp", g_tmp.c_str(), (int)getpid());
 	String path(name);
-	if (!Xdl::write(v, path, mode)) return Outcome::fail("harness: cannot write " + std::string(name));
-	std::string ftext = slurp(name);
-	if (ftext != got)
-		return Outcome::fail("Xdl::write(v, file, " + std::to_string(mode) + ") wrote " + showText(ftext) + " , encode gives " + showText(got));
-	if (json)
+	// the texts the library produces for this (tree, mode)
+	std::vector<std::pair<std::string, std::string> > texts; // (via, text)
 	{
-		Json::write(v, path, Json::Mode(mode & ~Json::JSON));
-		if (slurp(name) != got)
-			return Outcome::fail("Json::write(v, file, " + std::to_string(mode & ~Json::JSON) + ") wrote " + showText(slurp(name)) + " , encode gives " + showText(got));
+		String t = Xdl::encode(v, mode);
+		texts.push_back(std::make_pair(std::string("Xdl::encode"), std::string(*t, (size_t)t.length())));
+		if (!Xdl::write(v, path, mode)) return Outcome::fail("harness: cannot write " + std::string(name));
+		texts.push_back(std::make_pair(std::string("Xdl::write"), slurp(name)));
+		if (json)
+		{
+			String t2 = Json::encode(v, Json::Mode(mode & ~Json::JSON));
+			texts.push_back(std::make_pair(std::string("Json::encode"), std::string(*t2, (size_t)t2.length())));
+			Json::write(v, path, Json::Mode(mode & ~Json::JSON));
+			texts.push_back(std::make_pair(std::string("Json::write"), slurp(name)));
+		}
 	}
-	// the reader's side of the writer's dialect (XDL: identifier keys only)
+	std::vector<std::string> judged;
+	for (size_t i = 0; i < texts.size(); i++)
+	{
+		const std::string& via = texts[i].first;
+		const std::string& got = texts[i].second;
+		std::string lab = via + "(v, " + std::to_string(mode) + ")";
+		if (got != want)
+		{
+			bool seen = false;
+			for (size_t k = 0; k < judged.size(); k++) seen = seen || judged[k] == got;
+			if (!seen) { deviation(c, via.c_str(), got); judged.push_back(got); }
+		}
+		// the reader's side of the writer's dialect (XDL: identifier keys only), on the real text
+		if (json || xdl)
+		{
+			for (size_t k = 0; k < got.size(); k++)
+				if (got[k] == 0) return Outcome::fail(lab + " wrote a NUL byte: " + showText(got));
+			String text(got.c_str());
+			Var dec = json ? Json::decode(text) : Xdl::decode(text);
+			CHECK_RT(lab, got, dec, approx);
+		}
+	}
 	if (json || xdl)
 	{
-		Var dec = json ? Json::decode(text) : Xdl::decode(text);
-		CHECK_RT(lab, got, dec, approx);
+		// the file written last holds texts.back(): read it through the file reader as well
 		Var r = json ? Json::read(path) : Xdl::read(path);
-		CHECK_RT(std::string(lab) + " through a file", got, r, approx);
+		CHECK_RT(texts.back().first + " then read()", texts.back().second, r, approx);
 	}
 	unlink(name);
 	return res;
